@@ -91,6 +91,22 @@ class Explorer(object):
             out['schedule'] = [e[0] for e in ex]
             out['prefix_len'] = len(prefix)
             yield out
+            if not prefix and len(self.names) > 2:
+                # races of three, the straggler family: one request stops after j of its
+                # transactions, the other two run to completion one after the other, then it
+                # goes on with what it has read.  (As prefixes these have two preemptions and
+                # are long, so the order above reaches them late.)
+                count = {n: sum(1 for e in ex if e[0] == n) for n in self.names}
+                for x in self.names:
+                    others = [n for n in self.names if n != x]
+                    for j in range(1, count[x]):
+                        for y, z in (others, others[::-1]):
+                            o2 = self.run_one([x] * j + [y + '*', z + '*'])
+                            o2['schedule'] = [e[0] for e in o2['executed']]
+                            o2['prefix_len'] = 0
+                            self.runs -= 1      # not charged to the budget of the enumeration
+                            self.stragglers = getattr(self, 'stragglers', 0) + 1
+                            yield o2
             pruned = False
             for j in range(1, len(prefix)):
                 a, b = ex[j - 1], ex[j]
@@ -157,6 +173,10 @@ def base_state(s, kind=''):
         # max(id)+1, and without it rows written by one request could get the ids another
         # request is about to delete (no production DBMS re-uses ids like that)
         s.put('c5', {'p2': {'DISK_GB': 1}}, project='proj3', user='user2')
+    if kind == 'C05':
+        # a provider without inventory (as the root of a tree often is)
+        s.mk('p4')
+        s.do(op='rp_traits_put', v=39, u='p4', gen=s.gen('p4'), traits=['CUSTOM_T1'])
     if kind == 'C09':
         # a deeper hierarchy for the races between moves
         s.mk('p7', 'p2')
@@ -189,6 +209,14 @@ def provider_writers(s, u, gen_of):
                                'invs': [{'rc': 'VCPU', 'inv': INV(4)},
                                         {'rc': 'DISK_GB', 'inv': INV(60, reserved=10)}]}],
                         entries=[]),
+        # the provider named with no inventories at all
+        'reshape_empty': dict(op='reshape', v=39, env=env, invs=[{'u': u, 'gen': g('reshape_empty'), 'invs': []}],
+                              entries=[]),
+        # ... while the same reshape changes another provider
+        'reshape_empty_and_p2': dict(op='reshape', v=39, env=env,
+                                     invs=[{'u': u, 'gen': g('reshape_empty'), 'invs': []},
+                                           {'u': 'p2', 'gen': s.gen('p2'), 'invs': [{'rc': 'DISK_GB', 'inv': INV(120)}]}],
+                                     entries=[]),
         'alloc_put': dict(op='alloc_put', v=39, env=env,
                           **s.entry('c1', {u: {'VCPU': 2}}, cgen=-1)),
         # a rename touches no generation
@@ -236,6 +264,14 @@ def corpus(kind, s, tier, rnd):
             if tier == 'thorough':
                 for b in carriers:
                     out.append(('%s(zero)|%s' % (a, b), [dict(zero[a]), dict(same[b])]))
+        # the same on a provider that has no inventory and is to have none
+        g4 = s.gen('p4')
+        bare = provider_writers(s, 'p4', lambda k: g4)
+        bare0 = provider_writers(s, 'p4', lambda k: g4 - 1)
+        for a in ('reshape_empty', 'reshape_empty_and_p2'):
+            for b in ('reshape_empty', 'rp_traits_put', 'agg_put', 'inv_post', 'inv_put_all', 'rp_traits_del', 'agg_put_legacy'):
+                out.append(('bare %s|%s same-gen' % (a, b), [dict(bare[a]), dict(bare[b])]))
+            out.append(('bare %s(stale)|rp_traits_put' % a, [dict(bare0[a]), dict(bare['rp_traits_put'])]))
         # three in flight together, same generation
         trip = [('inv_put_all', 'rp_traits_put', 'agg_put'), ('inv_put', 'inv_put', 'reshape'),
                 ('rp_traits_put', 'rp_traits_put', 'rp_traits_del'), ('inv_put_all', 'alloc_put', 'agg_put')]
@@ -277,6 +313,8 @@ def corpus(kind, s, tier, rnd):
                               s.entry('c2', {'p2': {'DISK_GB': 1}}, cgen=-1)]),
             'reshape_cur': reshape([s.entry('c3', {'p2': {'DISK_GB': 4}}, cgen=g3)]),
             'del': dict(op='alloc_del', v=39, c='c3'),
+            # the consumer made anew (after another request emptied it) under another project
+            'put_recreate': put('c3', {'p3': {'VCPU': 1}}, -1, project='proj2', user='user2'),
             'post_c3_c4': post([s.entry('c3', {'p1': {'VCPU': 2}}, cgen=g3),
                                 s.entry('c4', {'p3': {'VCPU': 2}}, cgen=s.cgen('c4'), project='proj2', user='user2',
                                         ctype='MIGRATION')]),
@@ -296,6 +334,10 @@ def corpus(kind, s, tier, rnd):
         # one of three fails for its own reason and removes the consumer it created
         out.append(('put_null|put_null_toobig|put_null_b', [dict(new_variants[k]) for k in ('put_null', 'put_null_toobig', 'put_null_b')]))
         out.append(('put_cur|put_cur_b|put_cur_empty', [dict(old_variants[k]) for k in ('put_cur', 'put_cur_b', 'put_cur_empty')]))
+        # emptied and made anew while a third request still holds what it read: the new consumer
+        # passes through the generations the old one had
+        out.append(('put_cur|put_cur_empty|put_recreate', [dict(old_variants[k]) for k in ('put_cur', 'put_cur_empty', 'put_recreate')]))
+        out.append(('post_cur|del|put_recreate', [dict(old_variants[k]) for k in ('post_cur', 'del', 'put_recreate')]))
     elif kind == 'C19':
         # creations of custom names racing: identifiers stay unique, an existing name is never duplicated
         reqs19 = {
@@ -464,7 +506,7 @@ def corpus(kind, s, tier, rnd):
         for label, areqs in corpus('C06', s, tier, rnd):
             if any(r['op'] == 'alloc_del' for r in areqs):
                 continue        # DELETE carries no generation: outside C07
-            if tier == 'quick' and rnd.random() < 0.5:
+            if tier == 'quick' and len(areqs) < 3 and rnd.random() < 0.5:
                 continue
             out.append(('same-consumer ' + label, areqs))
         out.append(('c1_vcpu2|c2_vcpu2|shrink_vcpu', [dict(claims['c1_vcpu2']), dict(claims['c2_vcpu2']), dict(guarded['shrink_vcpu'])]))
